@@ -57,6 +57,9 @@ func (s *substitution) chunk(lit string) string {
 	for i := 0; i < n; i++ {
 		sb.WriteString(p[s.rng.Intn(len(p))])
 	}
+	if s.pool == "csv" {
+		return latin1(sb.String()) // byte strings travel as one rune per byte
+	}
 	return sb.String()
 }
 
